@@ -40,6 +40,14 @@
 //! cleanr  t=<T> h=<l|N> bts=<secs|-> n=<k> unv=<0|1> err=<0|1>      CleanupPolicyBuilder … retain_n_versions(k)
 //!   -> ok old=<old_versions> R=<removed objects> | err tagged n=<tags> | err no_handle | panic
 //! ```
+//! race t=0 kind=<append|overwrite|delete|restore> unv=<0|1> late=<0|1> seed=<n>     (a case of its own)
+//!   a table (create 3 rows, overwrite 2 rows, append 1 row) on an in-memory store; then `cleanup_old_versions(0 s, unv,
+//!   error_if_tagged = false)` and ONE writer run as two tasks under the gate controller (gatekit): every storage call of
+//!   either task (list, get, head, put, delete, …) is released one at a time in the order drawn from `seed`.  `late=1`
+//!   forces lance's clock 8 days ahead, so that the writer's files look older than the threshold (outside the premise).
+//!   -> `race safe` (the writer failed, or the version it published scans to the expected rows, and every surviving version
+//!      scans) | `race BROKEN`, when kind is not restore and unv = late = 0 (the region of `race_safe`);
+//!      `race unconstrained` otherwise (tags and, for restore, the oracle record what happened)
 //! Oracle (never looks at the Lean model), after every cleanup: every version the policy keeps (latest for the handle,
 //! tagged, not selected by time/version, the n newest for `cleanr`) and every version whose manifest survived scans to
 //! the rows it had before; removed manifests were selected by the policy; on an error nothing was removed; with
@@ -68,6 +76,16 @@ use lance_index::{DatasetIndexExt, IndexType};
 #[allow(dead_code)]
 mod tablekit;
 use tablekit::*;
+#[path = "../gatekit.rs"]
+#[allow(dead_code)]
+mod gatekit;
+use gatekit::{Controller, Fault, GateHandle, GatedObjectStore};
+use lance::dataset::builder::DatasetBuilder;
+use lance::dataset::ReadParams;
+use lance::session::Session;
+use lance_io::object_store::{ObjectStoreParams, WrappingObjectStore};
+use object_store::memory::InMemory;
+use object_store::ObjectStore as OSObjectStore;
 
 const EPOCH0: i64 = 1_700_000_000;
 const DAY: i64 = 86_400;
@@ -445,7 +463,7 @@ impl C08 {
         }
         let known = [
             "create", "append", "overwrite", "delete", "compact", "index", "tag", "untag", "config", "dappend", "orphan", "begin",
-            "commit", "hold", "restore", "cleanup", "cleanp", "cleanr",
+            "commit", "hold", "restore", "cleanup", "cleanp", "cleanr", "race",
         ];
         if !known.contains(&op) {
             return "err parse".into();
@@ -460,6 +478,12 @@ impl C08 {
             "config" => arg(toks, "i").is_some() && arg(toks, "o").is_some() && arg(toks, "r").is_some(),
             "orphan" => arg(toks, "p").map(|p| !p.is_empty() && !p.starts_with('/') && !p.ends_with('/') && !p.contains("//") && !p.contains("..")).unwrap_or(false),
             "hold" => arg_u64(toks, "v").is_some(),
+            "race" => {
+                matches!(arg(toks, "kind"), Some("append" | "overwrite" | "delete" | "restore"))
+                    && matches!(arg_opt_bool(toks, "unv"), Some(Some(_)))
+                    && matches!(arg_opt_bool(toks, "late"), Some(Some(_)))
+                    && arg_u64(toks, "seed").is_some()
+            }
             "cleanup" => {
                 handle_arg(toks).is_some() && arg_i64(toks, "older").is_some() && arg_opt_bool(toks, "unv").is_some() && arg_opt_bool(toks, "err").is_some()
             }
@@ -481,6 +505,10 @@ impl C08 {
         };
         if !ok_args {
             return "err parse".into();
+        }
+        if op == "race" {
+            res.tags.push("op:race".into());
+            return self.run_race(toks, li, res);
         }
         if op != "create" && !w.exists {
             return "err no_table".into();
@@ -935,6 +963,256 @@ impl C08 {
     }
 }
 
+
+// ------------------------------------------------------------------------------------------------ cleanup || writer under the gate
+
+const RURI: &str = "memory://c08race/t";
+
+#[derive(Debug)]
+struct GateWrap {
+    inner: Arc<dyn OSObjectStore>,
+    h: GateHandle,
+}
+impl WrappingObjectStore for GateWrap {
+    fn wrap(&self, _prefix: &str, _original: Arc<dyn OSObjectStore>) -> Arc<dyn OSObjectStore> {
+        Arc::new(GatedObjectStore::new(self.inner.clone(), self.h.clone()))
+    }
+}
+#[derive(Debug)]
+struct PlainWrap {
+    inner: Arc<dyn OSObjectStore>,
+}
+impl WrappingObjectStore for PlainWrap {
+    fn wrap(&self, _prefix: &str, _original: Arc<dyn OSObjectStore>) -> Arc<dyn OSObjectStore> {
+        self.inner.clone()
+    }
+}
+
+fn race_store_params(w: Arc<dyn WrappingObjectStore>) -> ObjectStoreParams {
+    ObjectStoreParams { object_store_wrapper: Some(w), ..Default::default() }
+}
+async fn race_open(w: Arc<dyn WrappingObjectStore>, v: Option<u64>) -> lance::Result<Dataset> {
+    let mut b = DatasetBuilder::from_uri(RURI).with_read_params(ReadParams {
+        session: Some(Arc::new(Session::default())),
+        store_options: Some(race_store_params(w)),
+        ..Default::default()
+    });
+    if let Some(v) = v {
+        b = b.with_version(v);
+    }
+    b.load().await
+}
+fn race_params(w: Arc<dyn WrappingObjectStore>, mode: WriteMode) -> WriteParams {
+    WriteParams {
+        mode,
+        store_params: Some(race_store_params(w)),
+        session: Some(Arc::new(Session::default())),
+        skip_auto_cleanup: true,
+        ..Default::default()
+    }
+}
+fn race_reader(keys: &[i64]) -> arrow_array::RecordBatchIterator<std::vec::IntoIter<std::result::Result<arrow_array::RecordBatch, arrow_schema::ArrowError>>> {
+    let spec = SchemaSpec::ints(1);
+    let rows: Vec<Row> = keys.iter().map(|k| vec![Some(*k)]).collect();
+    arrow_array::RecordBatchIterator::new(vec![Ok(spec.batch(&rows))].into_iter(), spec.arrow_schema())
+}
+async fn race_write(w: Arc<dyn WrappingObjectStore>, mode: WriteMode, keys: &[i64]) -> lance::Result<u64> {
+    let nd = if matches!(mode, WriteMode::Create) {
+        Dataset::write(race_reader(keys), RURI, Some(race_params(w, mode))).await?
+    } else {
+        let ds = race_open(w.clone(), None).await?;
+        Dataset::write(race_reader(keys), WriteDestination::Dataset(Arc::new(ds)), Some(race_params(w, mode))).await?
+    };
+    Ok(nd.manifest().version)
+}
+async fn race_scan(w: Arc<dyn WrappingObjectStore>, v: u64) -> std::result::Result<Vec<i64>, String> {
+    let ds = race_open(w, Some(v)).await.map_err(|e| format!("open v{v}: {e}"))?;
+    let mut sc = ds.scan();
+    sc.scan_in_order(true);
+    let batch = sc.try_into_batch().await.map_err(|e| format!("scan v{v}: {e}"))?;
+    let rows = SchemaSpec::ints(1).decode(&batch, &[]).map_err(|e| format!("decode v{v}: {}", e.0))?;
+    Ok(rows.into_iter().map(|r| r[0].unwrap_or(i64::MIN)).collect())
+}
+
+impl C08 {
+    fn run_race(&mut self, toks: &[&str], li: usize, res: &mut CaseResult) -> String {
+        let kind = arg(toks, "kind").unwrap().to_string();
+        let unv = arg_opt_bool(toks, "unv").unwrap().unwrap();
+        let late = arg_opt_bool(toks, "late").unwrap().unwrap();
+        let seed = arg_u64(toks, "seed").unwrap();
+        let premise = kind != "restore" && !unv && !late;
+        let store: Arc<dyn OSObjectStore> = Arc::new(InMemory::new());
+        let rt = gatekit::runtime();
+        let kind2 = kind.clone();
+        let kind3 = kind.clone();
+        // (writer result, cleanup result, problems found afterwards, stuck)
+        let (wres, cres, problems, stuck): (Option<std::result::Result<u64, String>>, Option<std::result::Result<u64, String>>, Vec<String>, bool) =
+            rt.block_on(async move {
+                let plain: Arc<dyn WrappingObjectStore> = Arc::new(PlainWrap { inner: store.clone() });
+                lance::utils::verif_set_clock(0);
+                let mut problems = vec![];
+                let setup = async {
+                    race_write(plain.clone(), WriteMode::Create, &[0, 1, 2]).await?;
+                    race_write(plain.clone(), WriteMode::Overwrite, &[3, 4]).await?;
+                    race_write(plain.clone(), WriteMode::Append, &[5]).await
+                };
+                if let Err(e) = setup.await {
+                    return (None, None, vec![format!("setup: {e}")], false);
+                }
+                if late {
+                    let now = SystemTime::now().duration_since(UNIX_EPOCH).unwrap().as_nanos() as i64;
+                    lance::utils::verif_set_clock(now + 8 * DAY * 1_000_000_000);
+                }
+                let mut ctl: Controller<std::result::Result<u64, String>> = Controller::new();
+                ctl.max_spins = 2_000_000;
+                let w0: Arc<dyn WrappingObjectStore> = Arc::new(GateWrap { inner: store.clone(), h: ctl.handle(0) });
+                let w1: Arc<dyn WrappingObjectStore> = Arc::new(GateWrap { inner: store.clone(), h: ctl.handle(1) });
+                ctl.spawn(0, async move {
+                    let ds = race_open(w0, None).await.map_err(|e| e.to_string())?;
+                    let st = ds.cleanup_old_versions(chrono::TimeDelta::zero(), Some(unv), Some(false)).await.map_err(|e| e.to_string())?;
+                    Ok(st.old_versions)
+                });
+                ctl.spawn(1, async move {
+                    match kind2.as_str() {
+                        "append" => race_write(w1, WriteMode::Append, &[100, 101]).await.map_err(|e| e.to_string()),
+                        "overwrite" => race_write(w1, WriteMode::Overwrite, &[100, 101]).await.map_err(|e| e.to_string()),
+                        "delete" => {
+                            let mut ds = race_open(w1, None).await.map_err(|e| e.to_string())?;
+                            ds.delete("c0 < 4").await.map_err(|e| e.to_string())?;
+                            Ok(ds.manifest().version)
+                        }
+                        _ => {
+                            let mut ds = race_open(w1, Some(1)).await.map_err(|e| e.to_string())?;
+                            ds.restore().await.map_err(|e| e.to_string())?;
+                            Ok(ds.manifest().version)
+                        }
+                    }
+                });
+                let mut rng = Rng::new(seed);
+                let mut stuck = false;
+                let mut steps = 0usize;
+                let mut cur = rng.below(2) as usize;
+                let mut burst = 0u64;
+                loop {
+                    if !ctl.quiesce().await {
+                        stuck = true;
+                        break;
+                    }
+                    let p0 = ctl.parked(0).is_some();
+                    let p1 = ctl.parked(1).is_some();
+                    if !p0 && !p1 {
+                        break;
+                    }
+                    if burst == 0 {
+                        cur = rng.below(2) as usize;
+                        let m = [1u64, 2, 4, 8, 16][rng.usize(5)];
+                        burst = 1 + rng.below(m);
+                    }
+                    burst -= 1;
+                    let pick = if p0 && p1 { cur } else if p0 { 0 } else { 1 };
+                    ctl.step(pick, Fault::None).await;
+                    steps += 1;
+                    if steps > 20_000 {
+                        stuck = true;
+                        break;
+                    }
+                }
+                let cres = ctl.result(0);
+                let wres = ctl.result(1);
+                ctl.abort_all();
+                lance::utils::verif_set_clock(0);
+                if !stuck {
+                    // afterwards, through an ungated handle: every version that is still listed scans; the writer's version
+                    // holds the rows it must hold
+                    let expect: Vec<i64> = match kind3.as_str() {
+                        "append" => vec![3, 4, 5, 100, 101],
+                        "overwrite" => vec![100, 101],
+                        "delete" => vec![4, 5],
+                        _ => vec![0, 1, 2],
+                    };
+                    match race_open(plain.clone(), None).await {
+                        Err(e) => problems.push(format!("the table no longer opens: {e}")),
+                        Ok(ds) => match ds.versions().await {
+                            Err(e) => problems.push(format!("versions(): {e}")),
+                            Ok(vs) => {
+                                for v in vs {
+                                    match race_scan(plain.clone(), v.version).await {
+                                        Err(e) => problems.push(e),
+                                        Ok(rows) => {
+                                            if let Some(Ok(wv)) = &wres {
+                                                if *wv == v.version && rows != expect {
+                                                    problems.push(format!("the writer's version {wv} holds {rows:?}, expected {expect:?}"));
+                                                }
+                                            }
+                                        }
+                                    }
+                                }
+                            }
+                        },
+                    }
+                    if let Some(Ok(wv)) = &wres {
+                        if let Err(e) = race_scan(plain.clone(), *wv).await {
+                            if !problems.contains(&e) {
+                                problems.push(e);
+                            }
+                        }
+                    }
+                }
+                (wres, cres, problems, stuck)
+            });
+        res.tags.push(format!("race:{kind}"));
+        if stuck {
+            res.tags.push("race_stuck".into());
+            res.failures.push(OracleFailure { what: "race: the controller could not reach quiescence".into(), key: Some("harness_stuck".into()), line: li });
+        }
+        match &wres {
+            Some(Ok(_)) => res.tags.push("race_writer_ok".into()),
+            Some(Err(e)) => {
+                res.tags.push("race_writer_err".into());
+                if std::env::var("C08_DEBUG").is_ok() {
+                    eprintln!("[c08] race writer: {e}");
+                }
+            }
+            None => res.tags.push("race_writer_none".into()),
+        }
+        if let Some(Err(e)) = &cres {
+            res.tags.push("race_cleanup_err".into());
+            if std::env::var("C08_DEBUG").is_ok() {
+                eprintln!("[c08] race cleanup: {e}");
+            }
+        }
+        let broken = !problems.is_empty();
+        if broken {
+            res.tags.push(format!("race_broken:{kind}:unv{}:late{}", unv as u8, late as u8));
+            if std::env::var("C08_DEBUG").is_ok() {
+                eprintln!("[c08] race problems: {problems:?}");
+            }
+        }
+        res.tags.push("removed_some".into());
+        if premise {
+            if broken {
+                res.failures.push(OracleFailure {
+                    what: format!("cleanup raced with a {kind} (delete_unverified off, files younger than the threshold): {}", problems.join("; ")),
+                    key: Some("racing_commit_broken".into()),
+                    line: li,
+                });
+                "race BROKEN".into()
+            } else {
+                "race safe".into()
+            }
+        } else {
+            if broken && kind == "restore" && !unv && !late {
+                res.failures.push(OracleFailure {
+                    what: format!("cleanup raced with a restore of version 1: {}", problems.join("; ")),
+                    key: Some(KEY_RESTORE.into()),
+                    line: li,
+                });
+            }
+            "race unconstrained".into()
+        }
+    }
+}
+
 fn handle_arg(toks: &[&str]) -> Option<Option<u64>> {
     match arg(toks, "h")? {
         "l" => Some(None),
@@ -1139,12 +1417,22 @@ impl Prop for C08 {
     }
     fn budget(&self, tier: Tier) -> usize {
         match tier {
-            Tier::Quick => 220,
-            Tier::Thorough => 3000,
-            Tier::Search => 800,
+            Tier::Quick => 120,
+            Tier::Thorough => 1600,
+            Tier::Search => 400,
         }
     }
-    fn gen_case(&mut self, rng: &mut Rng, tier: Tier, _idx: usize) -> Vec<String> {
+    fn gen_case(&mut self, rng: &mut Rng, tier: Tier, idx: usize) -> Vec<String> {
+        // every fourth case is a race: cleanup || one writer under the gate controller
+        if idx % 4 == 3 {
+            let kind = *rng.pick(&["append", "append", "overwrite", "delete", "restore", "restore"]);
+            let (unv, late) = match rng.below(8) {
+                0 => (1, 0),
+                1 => (0, 1),
+                _ => (0, 0),
+            };
+            return vec![format!("race t=0 kind={kind} unv={unv} late={late} seed={}", rng.below(1_000_000))];
+        }
         let lines = Self::gen_lines(rng, tier);
         // record the structure of the history by running it once
         let r = self.run_case(&lines);
@@ -1186,7 +1474,9 @@ impl Prop for C08 {
          in the past or the future / begin + commit of an in-flight append / hold + restore of an old version), clock forced per op \
          (steps 0 s .. 20 d), ending in a cleanup by age, by explicit policy (timestamp and version bounds at, just below and just \
          above manifest timestamps) or retain-n, through the latest or a stale handle; 1/8 of the cases carry a malformed line. \
-         Non-trivial: a cleanup (explicit or automatic) removed at least one object."
+         Every fourth case is a race on an in-memory table: cleanup and one writer (append / overwrite / delete / restore) as two \
+         tasks whose storage calls are released one at a time in a seeded order (bursts of 1-16 calls), 1/8 each with \
+         delete_unverified or a clock 8 days ahead. Non-trivial: a cleanup (explicit or automatic) removed at least one object, or a race."
             .into()
     }
 }
